@@ -46,11 +46,34 @@ CLAIMED["C05"] = ("Refresh step with symbolic original grant (scopes, subject), 
 CLAIMED["C07"] = ("Expiry: every validator called directly with symbolic instants (HMAC access / refresh / authorize code, device and user codes, MapClaims exp/nbf/iat as int64 / float64 / json.Number, JWT claims and strategy, rfc7523 claims) against an integer specification of 'honoured until' (session expiry if set, else requested_at + lifespan, unlimited refresh = never; both verdicts accepted at the documented boundary); GetEffectiveLifespan for all grant x token-type pairs x client shapes with 12 symbolic overrides against an independent table; advertised vs honoured lifetimes through code, refresh, password, client_credentials (thorough: implicit, second refresh generation) flows with a symbolic clock advance probing introspection / refresh; code, device and PAR request_uri lifetimes.", "6/C07", T_PURE)
 
 CLAIMED["C11"] = ("Redirect-URI matching and the writers, in two encodings of net/url: (i) abstract — plain symbolic strings whose parse fields are uninterpreted functions (decides the Boolean structure of MatchRedirectURIWithClientRedirectURIs / isMatchingAsLoopback / IsValidRedirectURI / IsRedirectURISecure for every string; models are refined against native evaluators and replayed), (ii) structured — scheme, hostname, port, path, query, fragment as symbolic components over delimiter-free alphabets plus literal hosts (127.0.0.1, 127.0.0.2, [::1], localhost, x.localhost, look-alikes), declared to the engine and checked against the real parser on every replay; 1-2 (1-3) registered URIs and a requested one; reference matcher written independently over the components; WriteAuthorizeError / WriteAuthorizeResponse in 4 response modes (Location / form action target is a qualifying URI or nothing is redirected); code and PAR handlers' plain-http gate.", "6/C11", T_PURE)
-CLAIMED["C12"] = ("(1) Differential check of the three scope strategies against reference models over lists of symbolic segments (K=3,L=4,1 matcher -> K=4,L=6,2 matchers) and of the two audience strategies + GetAudiences against a reference over structured URLs (scheme, host, port, <=2 (3) path segments, trailing slash); (2) confinement: with Config.ScopeStrategy / AudienceMatchingStrategy replaced by logging closures that answer with a fresh solver Boolean per consultation, the authorize-code, implicit, hybrid, client-credentials, password, refresh and PAR flows accept a request only if every requested scope was put to the policy with the client's registered scopes as haystack and answered true (likewise the audience), and issued tokens carry only granted scopes. Device and JWT-bearer confinement are not covered.", "6/C12",
+CLAIMED["C12"] = ("(1) Differential check of the three scope strategies against reference models over lists of symbolic segments (K=3,L=4,1 matcher -> K=4,L=6,2 matchers) and of the two audience strategies + GetAudiences against a reference over structured URLs (scheme, host, port, <=2 (3) path segments, trailing slash); (2) confinement: with Config.ScopeStrategy / AudienceMatchingStrategy replaced by logging closures that answer with a fresh solver Boolean per consultation, the authorize-code, implicit, hybrid, client-credentials, password, refresh and PAR flows accept a request only if every requested scope was put to the policy with the client's registered scopes as haystack and answered true (likewise the audience), and issued tokens carry only granted scopes.", "6/C12",
          "symbolic execution of Go SSA (own engine) + SMT (cvc5, z3 cross-check), differential against reference models, uninterpreted policy with call log, native replay")
 CLAIMED["C13"] = ("Authorization-request validation through NewAuthorizeRequest / NewAuthorizeResponse / WriteAuthorizeResponse / WriteAuthorizeError on a provider composed with the OAuth2 and OpenID Connect explicit / implicit / hybrid handlers (recording signer): registrations (response types, response modes, grant types, public flag) x requests (response_type word lists in any order and multiplicity, 5 response modes, symbolic client id, state and nonce strings around the length thresholds, openid on/off, redirect_uri present/absent; thorough: prompt/max_age, 3-word response types, signed request objects over the go-jose model): accepted => client exists, response-type set registered, mode allowed, state and nonce long enough, openid => redirect_uri; access tokens from the authorize endpoint only with the implicit grant; tokens only in fragment or form post, never in the query; state echoed on success and redirected errors; request_uri only if pre-registered (spy fetcher).", "6/C13", T_PURE)
 
 NOT_YET = {}
+
+# ---- additions of the later build rounds (harnesses written after seeded changes were missed; see DESIGN.md 0.2 / 0.5)
+MORE = {
+ "C01": " Added: 'an unrelated authorization' as a free operation; an inductive step lemma on the authorization-code table of the reference store from an arbitrary symbolic table (a spent code stays as a tombstone).",
+ "C02": " Added: codes of OIDC hybrid origin and of PUSHED authorization requests continued with a conflicting front-channel redirect_uri.",
+ "C03": " Added: challenge pushed through PAR with a conflicting front-channel challenge; hybrid 'code token' with a revocation of the front-channel access token before redemption.",
+ "C04": " Added: generations that age differently (symbolic clock advance before the rotation and before a free presentation); JWT access tokens under a deterministic model signer with all rotations in one second; an INDUCTIVE step lemma on the store's refresh / access token tables (arbitrary symbolic state satisfying the representation invariant, six operations, invariant re-established).",
+ "C05": " Added: the three shipped session types (DefaultSession, openid.DefaultSession, JWTSession) through one or two refreshes.",
+ "C06": " Added: two JWTs minted from one session (or its clone) in one second differ in their claims.",
+ "C07": " Added: implicit grant in the quick tier with its decimal expires_in parsed back; the first access token of a hybrid grant after redemption / refresh of the grant.",
+ "C08": " Added: the inductive step lemma of C04 for the two revocation operations of the store.",
+ "C09": " Added: refresh tokens without expiry (server-wide or per client) with a forged key part under a live signature, any hint, age 0..400 days.",
+ "C10": " Added: c2 authenticates while the body names an arbitrary (symbolic) client at the PAR, device, token and revocation endpoints: a processed request is processed in the name of the client that proved its secret; the default JWKS fetcher over a modelled cache and key-set server (two symbolic, different jwks_uri locations never share keys).",
+ "C12": " Added since: device-endpoint confinement, consent to a strict subset followed by refreshes, a client without registered audience (JWT-bearer confinement by the key's scopes is decided by C15's bearer harnesses).",
+ "C13": " Added: PAR push + continuation with extra front-channel parameters; the default JWKS fetcher lemma (see C10).",
+ "C15": " Added: assertion lifetimes up to two days (beyond the JWT max duration); the default JWKS fetcher lemma (see C10).",
+ "C16": " Added: symbolic clock advance before the replay poll in the quick tier for the contract store.",
+ "C17": " Added: a push without a session (nil).",
+ "C19": " Added: the shared-write watch follows every pointer, interface, slice and array reachable from the provider (strategies included; copy() into a watched array counts); a native contention probe (8 goroutines, one fresh key) confirms atomicity findings on test-and-set store operations that involve no data race; Config.GetJWKSFetcherStrategy.",
+}
+for _k, _v in MORE.items():
+    _t = CLAIMED[_k]
+    CLAIMED[_k] = (_t[0] + _v,) + tuple(_t[1:])
 
 def main():
     props = [json.loads(l)["id"] for l in open("/verif/properties.jsonl")]
